@@ -223,8 +223,13 @@ def _record(bag, prefix, case, evaluate, extra, flagnames):
         return False
     mcase, mv, necessary = D.minimise(case, evaluate, _same_symptom, extra)
     flags = [name for name, on in flagnames(mcase) if on]
-    what = "%s: %s [%s]%s" % (prefix(mcase), mv[0], _cause_str(necessary),
-                              (" {" + ", ".join(flags) + "}") if flags else "")
+    if "uplicate" in mv[0]:
+        # the duplicate-name policy does not depend on what the names are made of (and neutralising a name atom
+        # would un-duplicate the names), so these categories carry no cause / flag list
+        what = "%s: %s" % (prefix(mcase), mv[0])
+    else:
+        what = "%s: %s [%s]%s" % (prefix(mcase), mv[0], _cause_str(necessary),
+                                  (" {" + ", ".join(flags) + "}") if flags else "")
     bag.add(what, mcase, mv[1], mv[2])
     return True
 
@@ -582,12 +587,17 @@ def _c03_eval(case, scratch=None):
             if res["long"] != res["short"]:
                 return ("long and short encodings of the same data open differently", res["long"], res["short"])
             return None
+        RENAME_BAD = "duplicateNamesMode='rename' does not yield unique tier names / loses a tier"
         try:
             tg, text = _c03_open(d, case, scratch)
         except Exception as e:
             if _exc(e) == "DuplicateTierName" and has_dup and case["dup"] == "error":
                 return None
             text = _c03_render(d, case["variant"], case["numstyle"], case["nl"])
+            if _exc(e) == "DuplicateTierName" and not has_dup:
+                return ("DuplicateTierName raised although no tier name repeats", "the encoded textgrid", repr(names))
+            if has_dup and case["dup"] == "rename" and _exc(e) in ("TierNameExistsError", "DuplicateTierName"):
+                return (RENAME_BAD, "pairwise distinct names for %r" % names, "open raises %r" % e)
             return ("open raises %s" % _exc(e), "the encoded textgrid", "%r; file=%r" % (e, text[:600]))
         if has_dup and case["dup"] == "error":
             return ("duplicate tier names do not raise DuplicateTierName", "DuplicateTierName", repr(names))
@@ -596,11 +606,12 @@ def _c03_eval(case, scratch=None):
         if not case["empty"]:
             exp = D.drop_empty(exp)
         if has_dup:
+            # oracle from the property text only ("renamed to unique names in file order"): names pairwise
+            # distinct, no tier lost, contents and file order preserved (checked positionally below).  Which
+            # tier keeps which name is NOT prescribed by the property and is not checked.
             gn = [t["name"] for t in got["tiers"]]
-            ok = len(gn) == len(names) and len(set(gn)) == len(gn) and gn[0] == names[0] and all(
-                g.startswith(nm) for g, nm in zip(gn, names))
-            if not ok:
-                return ("duplicate names not renamed to unique names in file order", names, gn)
+            if len(gn) != len(names) or len(set(gn)) != len(gn):
+                return (RENAME_BAD, "%d pairwise distinct names for %r" % (len(names), names), gn)
             exp = dict(exp, tiers=[dict(t, name=g) for t, g in zip(exp["tiers"], gn)])
         v = D.compare_content(exp, got, "json" if case["variant"] == "json" else "x", False, exact=True)
         if v is not None:
@@ -639,6 +650,31 @@ def _c03_gen(rng):
     return cd
 
 
+C03_DUP_X = (["a"], ["Mary"], ['"'], ["="], ["7"], ["a", " ", "a"])
+C03_DUP_PATTERNS = (("X", "X_2", "X"), ("X", "X", "X_2"), ("X", "X_2", "X_2", "X"), ("X", "X", "X"), ("X_2", "X", "X"),
+                    ("X", "X", "X_2", "X_2"), ("X", "X_3", "X", "X"), ("X", "X_2", "X_3"), ("X", "X_2_2", "X", "X_2", "X"))
+C03_DUP_VARIANTS = ("long", "short", "elan-long", "textgrid_json")
+
+
+def _c03_dup_cds():
+    """tier-name lists in which a generated name can collide with a name already in the file; every tier has its own
+    type / span / content so that 'keeps its content and file order' is observable"""
+    cds = []
+    for x in C03_DUP_X:
+        for pat in C03_DUP_PATTERNS:
+            tiers = []
+            for i, pn in enumerate(pat):
+                name = list(x) + ([pn[1:]] if len(pn) > 1 else [])
+                if i % 2 == 0:
+                    tiers.append({"class": I, "name": name, "xmin": 0.0, "xmax": 2.5 + i,
+                                  "entries": [[0.0, 1.0 + i, ["a"] * (i + 1)]]})
+                else:
+                    tiers.append({"class": P, "name": name, "xmin": 0.0, "xmax": 2.5 + i,
+                                  "entries": [[0.5 + i, ["7"] * (i + 1)]]})
+            cds.append({"xmin": 0.0, "xmax": 2.5 + len(pat) - 1, "tiers": tiers})
+    return cds
+
+
 def _c03_chunk(chunk):
     bag = D.Bag()
     scratch = D.Scratch("c03")
@@ -659,6 +695,15 @@ def _c03_chunk(chunk):
                         ns = C03_NUMSTYLES[k % 4]
                         case = {"check": "c03_reader", "cd": cd, "variant": variant, "numstyle": ns, "enc": enc,
                                 "nl": nl, "empty": empty, "dup": ("error", "rename")[k % 2]}
+                        n += 1
+                        if _record(bag, pre, case, ev, _c03_extra, _c03_flags):
+                            nfail += 1
+        for cd in chunk.get("dups", []):
+            for variant in C03_DUP_VARIANTS:
+                for dup in ("error", "rename"):
+                    for empty in (True, False):
+                        case = {"check": "c03_reader", "cd": cd, "variant": variant, "numstyle": "plain", "enc": "utf-8",
+                                "nl": "LF", "empty": empty, "dup": dup}
                         n += 1
                         if _record(bag, pre, case, ev, _c03_extra, _c03_flags):
                             nfail += 1
@@ -684,6 +729,8 @@ def run_c03(tier, seed, jobs):
     nrand = 1500 if tier == "quick" else 25000
     chunks = [{"cds": c, "rand": [], "seed": seed, "full": full} for c in D.chunked(list(enumerate(cds)), jobs * 3)]
     chunks += [{"cds": [], "rand": r, "seed": seed, "full": full} for r in D.chunked(list(range(nrand)), jobs * 3)]
+    dups = _c03_dup_cds()
+    chunks += [{"cds": [], "rand": [], "dups": c, "seed": seed, "full": full} for c in D.chunked(dups, jobs)]
     res = D.pmap(MOD, "_c03_chunk", chunks, jobs)
     bag = D.Bag()
     n = nfail = 0
@@ -701,10 +748,13 @@ def run_c03(tier, seed, jobs):
         "= always with fraction). Single-tier single-entry textgrids EXHAUSTIVE in labels (<=2 atoms over %r, "
         "stripped), names (<=2 atoms), all pairs of %r, empty tiers, each x layout x includeEmptyIntervals with %s "
         "encoding/newline combinations; plus %d seeded random textgrids (1-3 tiers x 0-2 entries, labels <=3 atoms "
-        "incl. non-ASCII %r, 30%% with a duplicated tier name) x 6 with all other parameters drawn at random. %d "
-        "failing cases delta-debugged."
+        "incl. non-ASCII %r, 30%% with a duplicated tier name) x 6 with all other parameters drawn at random; plus "
+        "(both tiers, exhaustive) duplicate-name collision lists %r with X in %r (X_2 = X+'_2' ...), every tier with its "
+        "own type/span/content, x layouts %r x duplicateNamesMode{error,rename} x includeEmptyIntervals{T,F}: 'rename' "
+        "must give pairwise distinct names, no tier lost, contents and file order preserved position by position "
+        "(which tier keeps which name is not prescribed); 'error' must raise DuplicateTierName iff a name repeats. %d failing cases delta-debugged."
         % (C03_VARIANTS, C03_ENCODINGS, C03_NUMSTYLES, D.LABEL_ATOMS, D.NUMS, "all 8" if full else "2 of the 8 (rotating)",
-           nrand, D.UNICODE_ATOMS, nfail),
+           nrand, D.UNICODE_ATOMS, C03_DUP_PATTERNS, [D.mk_name(x) for x in C03_DUP_X], C03_DUP_VARIANTS, nfail),
         n, n, False, t0,
         [{"cd": cds[3], "variant": "elan-long", "numstyle": "float", "enc": "utf-16-be", "nl": "CRLF", "empty": False, "dup": "error"},
          {"cd": _c03_gen(_rng(seed, "c03", 0)), "variant": "short", "numstyle": "exp", "enc": "utf-8", "nl": "LF", "empty": True, "dup": "rename"}]),
